@@ -134,8 +134,15 @@ void EventLoop::loop()
   }
   MUDUO_VERIF_POINT("EventLoop::loop:exit", this);
   // functors queued before quit() was called must still run: the last swap may
-  // have happened before they were queued (e.g. connectDestroyed from ~TcpServer)
-  doPendingFunctors();
+  // have happened before they were queued (e.g. connectDestroyed from ~TcpServer).
+  // So must the functors these queue in turn (forceCloseInLoop -> handleClose ->
+  // removeConnectionInLoop queues connectDestroyed): a functor left behind is
+  // destroyed unrun, and with it the last reference to a connection that is
+  // still registered with the poller.
+  do
+  {
+    doPendingFunctors();
+  } while (queueSize() > 0);
 
   LOG_TRACE << "EventLoop " << this << " stop looping";
   looping_ = false;
